@@ -361,6 +361,9 @@ type TypeOps struct {
 	Fill   func(b Buf, in []uint64)
 	Drain  func(b Buf, out []uint64)
 	SizeOf int
+	// GrowCap is the capacity Go's append gives a plain []T of length l and
+	// capacity c when n more elements are appended (no library code involved).
+	GrowCap func(l, c, n int) int
 }
 
 func mkOps[T signal.SignalTypes](name string, named bool, base int) *TypeOps {
@@ -379,6 +382,7 @@ func mkOps[T signal.SignalTypes](name string, named bool, base int) *TypeOps {
 	return &TypeOps{
 		TypeInfo:  ti,
 		SizeOf:    int(rt.Size()),
+		GrowCap:   func(l, c, n int) int { return cap(append(make([]T, l, c), make([]T, n)...)) },
 		Alloc:     func(a signal.Allocator) Buf { return &gbuf[T]{b: signal.Alloc[T](a), ti: ti} },
 		PoolAlloc: func(a signal.Allocator) Pool { p := signal.PoolAlloc[T](a); return &gpool[T]{p: &p, ti: ti} },
 		MakeSl: func(n int) Sl {
